@@ -474,6 +474,9 @@ def run(chk) -> None:
 
     fs = chk.repo.func(AN, "find_stackings")
     chk.note_function(fs)
+    from checks import c03e as _c03e
+
+    fs = _c03e.unfolded(chk.repo, fs)
     if not any(isinstance(l, ast.For) and isinstance(l.iter, ast.Call) and astq.callee_name(l.iter) == "query_pairs" for l in fs.node.body):
         from checks import c03e as _c03e
 
